@@ -150,8 +150,10 @@ theorem bracedQuantifier_ens' {inp : List Nat} (h : inp ≠ []) :
       split at h2
       · rename_i r'
         have := decimalLiteral_suf r'
-        rw [h2] at this
-        exact suf_cons _ this
+        generalize decimalLiteral r' = x at h2 this
+        obtain ⟨mx', r''⟩ := x
+        simp only at h2 this
+        split at h2 <;> (cases h2; exact suf_cons _ this)
       · cases h2; exact suf_refl _
     exact suf_cons _ ((suf_cons _ (suf_refl r)).trans (s2.trans s1))
   · simp
@@ -250,6 +252,13 @@ theorem fromStrRadix16_lt {s : List Nat} {v : Nat} (h : fromStrRadix16 s = some 
   · have := hexAll_lt h
     simpa using this
 
+theorem hexDigitsRadix16_lt {s : List Nat} {v : Nat} (h : hexDigitsRadix16 s = some v) :
+    v < 16 ^ s.length := by
+  unfold hexDigitsRadix16 at h
+  split at h
+  · exact fromStrRadix16_lt h
+  · cases h
+
 theorem tryEscapeUnicodeSequence_suf (inp : List Nat) :
     (tryEscapeUnicodeSequence inp).2 <:+ inp := by
   fun_cases tryEscapeUnicodeSequence inp
@@ -264,9 +273,9 @@ theorem tryEscapeUnicodeSequence_suf (inp : List Nat) :
     | exact (take4_suf ‹take4 _ = some (_, _)›).trans ((suf_cons _ (suf_cons _ (suf_refl _))).trans (take4_suf ‹take4 inp = _›))
 
 theorem take4_val {inp s rest : List Nat} {u : Nat} (h : take4 inp = some (s, rest))
-    (h2 : fromStrRadix16 s = some u) : u < 65536 := by
+    (h2 : hexDigitsRadix16 s = some u) : u < 65536 := by
   obtain ⟨a, b, c, d, _, rfl⟩ := take4_eq h
-  have := fromStrRadix16_lt h2
+  have := hexDigitsRadix16_lt h2
   simpa using this
 
 theorem tryEscapeUnicodeSequence_val (inp : List Nat) :
@@ -344,11 +353,12 @@ macro "ssuf_tac" : tactic => `(tactic| first
   | exact SSuf.of_tail _ (List.drop_suffix _ _)
   | exact SSuf.of_tail _ (List.nil_suffix))
 
-theorem characterEscape_ens (unicode : Bool) (c0 : Nat) (rest0 : List Nat) (hb : Bnd (c0 :: rest0)) :
-    Ens (characterEscape unicode (c0 :: rest0)) (fun p => SSuf p.2 (c0 :: rest0) ∧ p.1 ≤ 0x10FFFF) := by
+theorem characterEscape_ens (unicode hasNamed : Bool) (c0 : Nat) (rest0 : List Nat)
+    (hb : Bnd (c0 :: rest0)) :
+    Ens (characterEscape unicode hasNamed (c0 :: rest0)) (fun p => SSuf p.2 (c0 :: rest0) ∧ p.1 ≤ 0x10FFFF) := by
   have hc0 := hb.head
   generalize hinp : c0 :: rest0 = inp
-  fun_cases characterEscape unicode inp
+  fun_cases characterEscape unicode hasNamed inp
   all_goals try simp only [*]
   all_goals try (simp; done)
   all_goals cases hinp
